@@ -144,6 +144,55 @@ theorem refs_same_namespace_or_granted {granted : Grants} {g : GwConfig} {id : I
     | inr hc => cases hc
   | inr h => exact Or.inr h
 
+/-- **refs_listenerset_config_namespace.** For a ListenerSet child (a config whose parents annotation starts with
+    `ListenerSet/`) the lookup namespace is the *config's* namespace, not the verified identity's: an inserted base
+    name names a secret in the namespace the ListenerSet lives in, or is granted to that namespace. This is
+    cross-namespace with respect to the proxy by design; it is safe only under the AllowedListeners handshake: such
+    configs are emitted by the ListenerSet conversion (`gateway_collection.go`) only after
+    `NamespaceAcceptedByAllowListeners(listenerSetNamespace, parentGateway)` holds, with parent-namespace = the parent
+    Gateway's namespace - an ASSUMPTION of this property about whoever creates configs carrying the internal
+    annotations (the secrets exposed are always those of the config author's own namespace). -/
+theorem refs_listenerset_config_namespace {granted : Grants} {g : GwConfig} {id : Identity} {base : Str}
+    (hls : g.listenerSet = true) (h : RefJustified granted g id base) :
+    (∃ sr, parseResourceName base id.ns [] [] = some sr ∧ sr.ns = g.ns) ∨ granted true base g.ns = true := by
+  unfold RefJustified at h
+  have hl : lookupNs g id = g.ns := by simp [lookupNs, hls]
+  rw [hl, hls] at h
+  cases h with
+  | inl h =>
+    obtain ⟨sr, hp, _, hn⟩ := h
+    exact Or.inl ⟨sr, hp, hn⟩
+  | inr h => exact Or.inr h
+
+/-- The witness behind the assumption: with no grant at all, a config in namespace `other` that carries
+    `parent-namespace: ns1` and `parents: ListenerSet/x` makes an ns1 gateway proxy's verified set contain
+    `kubernetes-gateway://other/s`. -/
+example : verifiedRefs (fun _ _ _ => false) (some ⟨"td".toList, "ns1".toList, "sa".toList⟩)
+      [{ ns := "other".toList, saAnn := [], parentNsAnn := "ns1".toList, parentsAnn := "ListenerSet/x".toList,
+         servers := [⟨true, [], "kubernetes-gateway://other/s".toList, false, []⟩] }] =
+    ["kubernetes-gateway://other/s".toList] := by decide
+
+/-- Without the ListenerSet marker the same config yields nothing: the config's namespace must be the verified one. -/
+example : verifiedRefs (fun _ _ _ => false) (some ⟨"td".toList, "ns1".toList, "sa".toList⟩)
+      [{ ns := "other".toList, saAnn := [], parentNsAnn := "ns1".toList, parentsAnn := "Gateway/x".toList,
+         servers := [⟨true, [], "kubernetes-gateway://other/s".toList, false, []⟩] }] = [] := by decide
+
+/-- **refs_only_from_attached.** With selector-based attachment (`PushContext.mergeGateways`) a verified reference
+    comes from a Gateway whose selector is contained in the proxy's labels (or that has no selector). -/
+theorem refs_only_from_attached (granted : Grants) (vid : Option Identity) (gws : List GwConfig)
+    (labels : List (Str × Str)) (rn : Str) (h : rn ∈ verifiedRefs granted vid (gws.filter (attached labels))) :
+    ∃ id g, vid = some id ∧ g ∈ gws ∧ attached labels g = true ∧
+      (∀ sel, g.selector = some sel → ∀ kv ∈ sel, kv ∈ labels) ∧
+      id.ns = g.expectedNs ∧ (id.sa = g.saAnn ∨ g.saAnn = []) := by
+  obtain ⟨id, g, hv, hg, hns, hsa, _⟩ := refs_sound granted vid _ rn h
+  obtain ⟨hg1, hg2⟩ := List.mem_filter.mp hg
+  refine ⟨id, g, hv, hg1, hg2, ?_, hns, hsa⟩
+  intro sel hsel kv hkv
+  unfold attached at hg2
+  rw [hsel] at hg2
+  simp only [List.all_eq_true] at hg2
+  simpa using hg2 kv hkv
+
 /-- Type, namespace and name of a parsed resource do not depend on the cluster arguments. -/
 theorem parse_clusters_irrelevant (rn vns pc cc pc' cc' : Str) {sr : SR}
     (h : parseResourceName rn vns pc cc = some sr) :
